@@ -71,6 +71,9 @@ class ModelToDataFrame(FunctionContract):
             return
         st, it, internal = e['flags']
         ctx.prove(z3.BoolVal(df.index is e['span']), 'one_row_per_period_indexed_by_the_span', 'ensures')
+        now = e['obj'].fields['names']
+        ctx.prove(z3.BoolVal(len(now) == len(e['names']) and all(isinstance(a, SStr) and z3.eq(a.e, b) for a, b in zip(now, e['names']))),
+                  'exporting_does_not_alter_the_variable_list_of_the_model', 'frame')
         cols = df.columns
         # expected: names in model order, underscore-prefixed ones only when requested (the path condition has decided each prefix test)
         pos = 0
